@@ -106,7 +106,9 @@ Proof. vm_compute. repeat split. Qed.
    exactly these; a change of logic in any of them breaks this obligation and the check then searches for a failing input *)
 Theorem C07_source_pinned : CCT.Gen.Pins.pinned_C07 =
   [(U"common.canonserialize", U"64fc1dee1d7349d7a920");
-   (U"common.load_metadata_from_file", U"f65eb5087b9ad786f4ff")].
+   (U"common.load_metadata_from_file", U"f65eb5087b9ad786f4ff");
+   (U"common.write_metadata_to_file", U"7e7340650f276f577b2b");
+   (U"signing.serialize_and_sign", U"b494a1c320877296ecf6")].
 Proof. reflexivity. Qed.
 (* END SOURCE PINS *)
 
